@@ -134,7 +134,7 @@ def _m(p, n, env):
 def find(pattern, scope, env=None):
     """All (node, bindings) in scope (Func, node or list of stmts) matching."""
     pat = _parse(pattern) if isinstance(pattern, str) else pattern
-    if isinstance(scope, Func):
+    if isinstance(scope, Func) or (not isinstance(scope, (ast.AST, list)) and hasattr(scope, "body")):
         nodes = walk_own(scope.body)
     elif isinstance(scope, list):
         nodes = walk_own(scope)
